@@ -15,8 +15,6 @@ func init() {
 	notApplicable["C03"] = "Round-trip delivery over reversed paths is an arithmetic property of Reverse/IncPath over all path shapes plus C02; nothing structural beyond what C10/C22 check."
 	notApplicable["C29"] = "Completeness of a graph search (every valid combination is returned) is a semantic property of an algorithm over arbitrary inputs; no necessary structural condition short of re-implementing it."
 	notApplicable["C41"] = "Byte-exact reassembly under loss/duplication/reordering is a behavioural property of a stateful protocol; static rules could only check slice bounds, which is not the property."
-	notApplicable["C43"] = "Evaluation and print/parse equivalence of expression trees: candidate rules (shape of Eval loops, format strings vs ANTLR grammar) would fire on behaviour-preserving rewrites; declined as brittle proxies."
-	notApplicable["C47"] = "Language equivalence between a sequence expression and the generated regular expression needs the semantics of regexp, not code shape."
 }
 
 // pending marks properties whose rules are not implemented yet (moved to
